@@ -36,20 +36,32 @@ def run_config(cfg):
     mm = metamodel_from_str(GRAMMAR % dict(ra=ra, rb=rb))
     if cfg.get('swap'):
         pass
+    if 'steps' in cfg:
+        # several register_scope_providers calls on this ONE meta-model, a model is loaded after each
+        return {'steps': [load(mm, cfg, keys, {}, gen, len(cfg['steps']) - 1 - gen) for gen, keys in enumerate(cfg['steps'])]}
+    return load(mm, cfg, cfg['keys'], cfg.get('string_keys', {}), 0, 0)
+
+
+CUR = {}
+
+
+def load(mm, cfg, keys, string_keys, gen, age):
     log = []
+    CUR['log'], CUR['gen'] = log, gen
 
     def mk(key):
         def provider(obj, attr, ref):
-            log.append([key, type(obj).__name__, attr.name])
+            # a provider of an earlier registration that is still called shows up in the log of the current load
+            CUR['log'].append([key if CUR['gen'] == gen else '%s@registration%d' % (key, gen), type(obj).__name__, attr.name])
             m = obj
             while hasattr(m, 'parent'):
                 m = m.parent
             return m.items[2]   # 'q'
         return provider
     regs = {}
-    for k in cfg['keys']:
+    for k in keys:
         regs[k] = mk(k)
-    for k, v in cfg.get('string_keys', {}).items():
+    for k, v in string_keys.items():
         regs[k] = v
     try:
         mm.register_scope_providers(regs)
